@@ -656,6 +656,51 @@ services:
     environment: {HOST: from-c}
 `
 
+// deprecated spellings that the loader still accepts (and warns about once)
+const corpusLegacy = `
+version: "3.8"
+services:
+  old:
+    image: old
+    volumes: ["data:/d"]
+    networks: [net]
+    secrets: [tok]
+    configs: [cfg]
+volumes:
+  data:
+    external: {name: shared_data}
+networks:
+  net:
+    external: {name: shared_net}
+secrets:
+  tok:
+    external: {name: vault_token}
+configs:
+  cfg:
+    external: {name: shared_cfg}
+`
+
+// every substitution operator, nested and mixed, so that consecutive substitutions never use the same one
+const corpusOperators = `
+services:
+  ops:
+    image: "i:${SET:-d}"
+    hostname: "${UNSET-d}"
+    domainname: "${SET:+alt}"
+    user: "${SET+alt}"
+    working_dir: "/${SET:?must}"
+    container_name: "c-${SET?must}"
+    labels:
+      a: "${UNSET:-${SET:+x}}"
+      b: "${SET:+${UNSET-y}}"
+      c: "${EMPTY:-e}${EMPTY-f}${EMPTY:+g}${EMPTY+h}"
+      d: "$SET ${SET}"
+    environment:
+      K1: "${UNSET:-1}"
+      K2: "${SET?x}"
+      K3: "${UNSET+3}"
+`
+
 const corpusInvalidSchema = `
 services:
   bad: {image: x, ports: {a: b}}
@@ -703,6 +748,8 @@ func CorpusScns() map[string]*Scn {
 		"odd-names":     {Files: files("compose.yaml", corpusOddNames, "s", "sec"), Main: []string{"compose.yaml"}, Env: map[string]string{"DBPW": "CANARY-dbpw"}},
 		"kv-shapes":     {Files: files("compose.yaml", corpusKVShapes), Main: []string{"compose.yaml"}, Env: map[string]string{"EMPTY": "env-empty", "BARE": "env-bare", "SET": "env-set"}},
 		"env-chain":     {Files: files("compose.yaml", corpusEnvChain, "a.env", "HOST=host-a\n", "b.env", "HOST=host-b\n", "shared.env", "URL=http://${HOST}/\nPLAIN=p\n"), Main: []string{"compose.yaml"}},
+		"legacy":        {Files: files("compose.yaml", corpusLegacy), Main: []string{"compose.yaml"}},
+		"operators":     {Files: files("compose.yaml", corpusOperators), Main: []string{"compose.yaml"}, Env: map[string]string{"SET": "set", "EMPTY": ""}},
 		"profiles":      {Files: files("compose.yaml", corpusProfiles), Main: []string{"compose.yaml"}},
 		"version":       {Files: files("compose.yaml", corpusVersion), Main: []string{"compose.yaml"}},
 		"bad-schema":    {Files: files("compose.yaml", corpusInvalidSchema), Main: []string{"compose.yaml"}},
